@@ -107,6 +107,10 @@ func (m *txSortedMap) TryReplace(tx *types.Transaction) bool {
 		return false
 	}
 
+	if _, exist := m.items[tx.Nonce()]; exist {
+		return false
+	}
+
 	// get a minor nonce, delete old one and add minor.
 	m.Remove(maxNonce)
 	if err := m.Add(tx); err != nil {
